@@ -172,3 +172,6 @@ pub fn uf_expand(key: &Key) -> RoundKeys {
 }
 pub fn uf_lsx(block: &mut Block, key: &Block) { block.0 = ufs::blk(&block.0, &key.0, 1); }
 pub fn uf_lsx_inv(block: &mut Block, key: &Block) { block.0 = ufs::blk(&block.0, &key.0, 2); }
+
+// ---- contract of key expansion as a spec function with the real signature (stub for api_compact.rs)
+pub fn spec_expand(key: &Key) -> RoundKeys { kz::key_schedule(&key.0).map(Array) }
